@@ -68,6 +68,8 @@ pub enum Case {
     /// such an archive with two layers (kind, variant, annotated): equal bytes under different media
     /// types, the same message twice under different annotations, every order
     ForeignArchive2 { a: (u8, u8, bool), b: (u8, u8, bool) },
+    /// an archive written by the SDK's own builder with two layers, read back layer by layer (C20's check)
+    SdkArchive2 { a: (u8, u8, bool), b: (u8, u8, bool) },
     /// a sample set in the field layout written by earlier releases (see C15), read back sample by sample
     LegacySampleSet { samples: Vec<(f64, u8)>, sense: i32 },
 }
@@ -799,10 +801,24 @@ pub fn check_case(l: &mut Local, case: &Case) {
             let ly = |x: &(u8, u8, bool)| super::c20::LayerRep { kind: x.0, variant: x.1, annotated: x.2 };
             super::c20::check_foreign_layers(l, case, &[ly(a), ly(b)], "foreign-archive");
         }
+        Case::SdkArchive2 { a, b } => {
+            l.evaluations += 1;
+            l.outcome(&("sdk2", a, b));
+            let ly = |x: &(u8, u8, bool)| super::c20::LayerRep { kind: x.0, variant: x.1, annotated: x.2 };
+            let mut inner = Local::new();
+            super::c20::check_case(&mut inner, &super::c20::Case::Sequence { layers: vec![ly(a), ly(b)] });
+            l.transitions += inner.transitions;
+            l.nontrivial += inner.nontrivial;
+            for v in inner.violations.into_values() {
+                l.violation(&format!("sdk-archive/{}", v.signature), || json!(case), v.detail);
+            }
+        }
         Case::LegacySampleSet { samples, sense } => {
             l.outcome(&("legacy-sample-set", samples.len(), sense));
             let mut inner = Local::new();
-            super::c15::check_case(&mut inner, &super::c15::Case::Best { samples: samples.iter().map(|s| (crate::refmodel::msg::X(s.0), s.1)).collect(), sense: *sense, legacy: true, by_value: false, removed_how: 0 });
+            super::c15::check_case(&mut inner, &super::c15::Case::Best { samples: samples.iter().map(|s| (crate::refmodel::msg::X(s.0), s.1)).collect(), sense: *sense, legacy: true, by_value: false, removed_how: 0, tag4_only: false });
+            // and the still older layout that has tag 4 only
+            super::c15::check_case(&mut inner, &super::c15::Case::Best { samples: samples.iter().map(|s| (crate::refmodel::msg::X(s.0), s.1)).collect(), sense: *sense, legacy: false, by_value: false, removed_how: 0, tag4_only: true });
             l.evaluations += inner.evaluations;
             l.transitions += inner.transitions;
             l.nontrivial += inner.nontrivial;
@@ -1011,6 +1027,8 @@ pub fn run(ctx: &Ctx) -> Finish {
                             l.states += 1;
                             check_case(l, &Case::ForeignArchive2 { a: (ka, va, aa), b: (kb, vb, ab) });
                         }
+                        l.states += 1;
+                        check_case(l, &Case::SdkArchive2 { a: (ka, va, true), b: (kb, vb, false) });
                     }
                 }
             }
